@@ -237,6 +237,12 @@ func TestProp(t *testing.T) {
 				fmt.Println(l)
 			}
 		}
+		if dir := os.Getenv("VERIF_NODELOGS"); dir != "" {
+			// development aid: the simulated nodes' own log output
+			for i, l := range r.NodeLogs {
+				os.WriteFile(fmt.Sprintf("%s/node%d.log", dir, i), []byte(strings.Join(l, "\n")), 0o644)
+			}
+		}
 		for _, v := range r.Violations {
 			if v.Prop == def.ID {
 				fmt.Printf("REPLAY-VIOLATION sig=%s\n  %s\n", v.Sig, v.Detail)
